@@ -26,7 +26,8 @@ from .translate import tables as T
 #   item    = ("const", name, expr) | ("str", name, value) | ("alias", name, target) | ("hid", name, v)
 #           | ("mid", name, v) | ("struct", name, body) | ("msg", name, id, body|None) | ("reserved", [id...])
 #   body    = ("fields", [(fname, type_text, expr|None)...]) | ("reuse", name)
-#   expr    = ("lit", n) | ("ref", name) | ("add"|"sub"|"mul", e1, e2)   (the model's grammar)
+#   expr    = ("lit", n) | ("ref", name) | ("add"|"sub"|"mul", e1, e2) | ("div", e, d)   (the model's grammar;
+#             ("div", e, d) is the TRUE division `e / d` by a positive integer literal: the value is a float)
 #           | ("raw", text)                                              (implementation only)
 # ----------------------------------------------------------------------------------------------
 
@@ -44,6 +45,9 @@ def expr_text(e, top=True) -> str:
         return e[1]
     if k == "raw":
         return e[1]
+    if k == "div":
+        s = f"{expr_text(e[1], False)} / {e[2]}"
+        return s if top else f"({s})"
     s = f"{expr_text(e[1], False)} {OPS[k]} {expr_text(e[2], False)}"
     return s if top else f"({s})"
 
@@ -55,17 +59,24 @@ def expr_model_ok(e) -> bool:
         return True
     if e[0] == "raw":
         return False
+    if e[0] == "div":
+        # Model/Emit.v computes with exact rationals: that IS the float arithmetic of the implementation when every
+        # intermediate value is a small dyadic rational, i.e. for divisors that are powers of two
+        return isinstance(e[2], int) and e[2] in (1, 2, 4, 8, 16, 32, 64) and expr_model_ok(e[1])
     return expr_model_ok(e[1]) and expr_model_ok(e[2])
 
 
-def expr_eval(e, consts: Dict[str, int]) -> int:
+def expr_eval(e, consts: Dict[str, int]):
+    """the value Python gives the expression: an int, or a float as soon as a true division takes part"""
     k = e[0]
     if k == "lit":
         return e[1]
     if k == "ref":
         return consts[e[1]]
+    if k == "div":
+        return expr_eval(e[1], consts) / e[2]
     if k == "raw":
-        return int(eval(re.sub(r"\b([A-Za-z_]\w*)\b", lambda m: str(consts[m.group(1)]), e[1])))
+        return eval(re.sub(r"\b([A-Za-z_]\w*)\b", lambda m: str(consts[m.group(1)]), e[1]))
     a, b = expr_eval(e[1], consts), expr_eval(e[2], consts)
     return a + b if k == "add" else a - b if k == "sub" else a * b
 
@@ -159,6 +170,8 @@ def expr_coq(e) -> str:
         return f"(CLit {cz(e[1])})"
     if k == "ref":
         return f"(CRef {cq(e[1])})"
+    if k == "div":
+        return f"(CDiv {expr_coq(e[1])} {int(e[2])}%positive)"
     c = {"add": "CAdd", "sub": "CSub", "mul": "CMul"}[k]
     return f"({c} {expr_coq(e[1])} {expr_coq(e[2])})"
 
@@ -717,7 +730,14 @@ def flat_model(model: dict) -> Tuple[List[int], List[str]]:
                     KINDCODE.get((f["kind"], f["akind"]), 9)]
             nm += [f["name"], f["type_name"]]
         return out, nm
-    nums += [c[1] for c in model["constants"]]
+    for c in model["constants"]:          # (0, n, 1) for an int, (1, numerator, denominator) for a float (exact value)
+        if c[2] == "int":
+            nums += [0, int(c[1]), 1]
+        elif c[2] == "float" and float(c[1]) == float(c[1]) and abs(float(c[1])) != float("inf"):
+            a, b = float(c[1]).as_integer_ratio()
+            nums += [1, a, b]
+        else:
+            nums += [9, 0, 1]
     names += [c[0] for c in model["constants"]]
     for k, v in model["string_constants"]:
         names += [k, v[1:-1] if len(v) >= 2 and v[0] == '"' else v]
@@ -891,19 +911,25 @@ def random_closure(rng, natives: List[str], knobs: dict, nfiles: Optional[int] =
         return counter["id"]
 
     def length():
+        """None | literal | expression over constants (+ - * and true division by 2 / 4 / 8): the field's length is
+        int(value); candidates whose truncated value is outside 1..60 are not used"""
         r = rng.random()
-        if r < 0.45:
+        if r < 0.4:
             return None
-        if r < 0.7 or not consts:
+        if r < 0.6 or not consts:
+            if rng.random() < 0.15:
+                return rng.choice([("div", ("lit", 5), 2), ("div", ("lit", 16), 4), ("div", ("lit", 7), 2), ("div", ("lit", 9), 8)])
             return ("lit", rng.choice([1, 2, 3, 4, 5, 7, 8, 16]))
-        c = rng.choice(sorted(consts))
-        r2 = rng.random()
-        if r2 < 0.5 and 1 <= consts[c] <= 40:
-            return ("ref", c)
-        if r2 < 0.75 and 1 <= consts[c] * 2 <= 60:
-            return ("mul", ("ref", c), ("lit", 2))
-        if 1 <= consts[c] + 1 <= 60:
-            return ("add", ("ref", c), ("lit", 1))
+        names = sorted(consts)
+        c = ("ref", rng.choice(names))
+        c2 = ("ref", rng.choice(names))
+        cands = [c, ("mul", c, ("lit", 2)), ("add", c, ("lit", 1)), ("div", c, 2), ("div", ("add", c, c2), 2),
+                 ("div", ("mul", c, c2), 4), ("mul", ("div", c, 2), ("lit", 3)), ("div", ("add", c, ("lit", 1)), 2),
+                 ("sub", ("mul", c, ("lit", 2)), ("div", c2, 8))]
+        rng.shuffle(cands)
+        for e in cands:
+            if 1 <= int(expr_eval(e, consts)) <= 60:
+                return e
         return ("lit", 2)
 
     def field_type(in_struct: bool):
@@ -943,10 +969,15 @@ def random_closure(rng, natives: List[str], knobs: dict, nfiles: Optional[int] =
         items = []
         for _ in range(rng.randint(0, size)):
             nm = new("k")
-            if consts and rng.random() < 0.4:
+            if consts and rng.random() < 0.5:
                 c = rng.choice(sorted(consts))
+                c2 = rng.choice(sorted(consts))
                 e = rng.choice([("mul", ("ref", c), ("lit", 2)), ("add", ("ref", c), ("lit", 3)),
-                                ("sub", ("mul", ("ref", c), ("lit", 3)), ("ref", c))])
+                                ("sub", ("mul", ("ref", c), ("lit", 3)), ("ref", c)),
+                                ("div", ("ref", c), 2), ("div", ("add", ("ref", c), ("ref", c2)), 2), ("div", ("ref", c), 4),
+                                ("mul", ("ref", c), ("ref", c2))])
+                if abs(expr_eval(e, consts)) > 4096:
+                    e = ("div", ("ref", c), 8)
             else:
                 e = ("lit", rng.choice([1, 2, 3, 4, 6, 8, 10, 12, 32]))
             consts[nm] = expr_eval(e, consts)
@@ -1049,6 +1080,13 @@ def systematic_closures(natives: List[str]) -> List[Tuple[str, dict]]:
         two("reuse msg->msg", M0, ("msg", "M1", 901, ("reuse", "M0")), imp)
         two("length->const", K0, ("struct", "S1", F(("x", "int8", ("ref", "K0")), ("y", "int8", ("mul", ("ref", "K0"), ("lit", 3))))), imp)
         two("const->const", K0, ("const", "K1", ("add", ("ref", "K0"), ("lit", 1))), imp)
+        # lengths / constants written with a true division: the constant is a float (1.5, 8.0), the length int() of it
+        two("length->const/2", K0, ("struct", "S1", F(("x", "int8", ("div", ("ref", "K0"), 2)), ("y", "int16", ("div", ("mul", ("ref", "K0"), ("lit", 5)), 2)))), imp)
+        two("length->float const", ("const", "KH", ("div", ("lit", 16), 2)),
+            ("struct", "S1", F(("x", "char", ("ref", "KH")), ("y", "double", ("div", ("mul", ("ref", "KH"), ("lit", 3)), 16)))), imp)
+        two("const->const/2", K0, ("const", "K1", ("div", ("add", ("ref", "K0"), ("lit", 2)), 2)), imp)
+        two("msg length->(const+const)/2", K0, ("msg", "M1", 901, F(("x", "int32", ("div", ("add", ("ref", "K0"), ("ref", "K0")), 2)), ("s", "char", ("div", ("lit", 5), 2)))), imp)
+        two("rejected: length truncates to 0", K0, ("struct", "S1", F(("x", "int8", ("div", ("ref", "K0"), 4)))), imp)
     # only possible across files (the section order forbids them inside one file)
     two("alias->struct", S0, ("alias", "A1", "S0"), True)
     two("field(struct)->msg", M0, ("struct", "S1", F(("x", "M0", None))), True)
